@@ -98,7 +98,7 @@ Proof.
 Qed.
 
 Lemma inv_empty : inv (@empty_tree V).
-Proof. apply inv_node. repeat split; [constructor | constructor | reflexivity]. Qed.
+Proof. apply inv_node. split; [constructor | split; [constructor | reflexivity]]. Qed.
 
 Lemma inv_keys_ok : forall t, inv t -> keys_ok t.
 Proof.
@@ -107,6 +107,12 @@ Proof.
   - inversion H; subst. destruct H2 as (A & B & _). split; [exact A | apply IH; exact B].
   - inversion H; subst. apply IHr. assumption.
 Qed.
+
+Lemma inv_leaf : forall l : list V, inv (Node (Some l) []).
+Proof. intro l. apply inv_node. split; [constructor | split; [constructor | reflexivity]]. Qed.
+
+Lemma child_ok_leaf : forall k (l : list V), k <> [] -> child_ok (k, Node (Some l) []).
+Proof. intros k l Hk. split; [exact Hk | split; [apply inv_leaf | simpl; discriminate]]. Qed.
 
 Lemma heads_app : forall a b, heads (a ++ b) = heads a ++ heads b.
 Proof. intros. unfold heads. apply map_app. Qed.
@@ -126,14 +132,15 @@ Proof.
   - apply (proj2 (H2 xs)). right. auto.
 Qed.
 
-Lemma upd_spec_lift : forall (F F' R L L' : list (key * list V)) c new xs,
+Lemma upd_spec_lift : forall (F F' R L L' : list (key * list V)) c new p xs,
+  p = c ++ new ->
   (forall e, In e F <-> In e R \/ In e (map (pre c) L)) ->
   (forall e, In e F' <-> In e R \/ In e (map (pre c) L')) ->
   upd_spec L L' new xs ->
-  (forall e, In e R -> fst e <> c ++ new) ->
-  upd_spec F F' (c ++ new) xs.
+  (forall e, In e R -> fst e <> p) ->
+  upd_spec F F' p xs.
 Proof.
-  intros F F' R L L' c new xs HF HF' [U1 U2] HR. split.
+  intros F F' R L L' c new p xs -> HF HF' [U1 U2] HR. split.
   - intros q v Hq. rewrite HF, HF'. rewrite !in_pre. split; intros [H | (r & -> & Hin)]; auto; right;
       exists r; (split; [reflexivity|]); assert (r <> new) by congruence.
     + apply U1; assumption.
@@ -170,7 +177,8 @@ Lemma in_flatten_moved : forall val l1 k c l2 e,
   In e (flatten (Node val (l1 ++ l2 ++ [(k, c)]))) <->
   In e (valpart val ++ fl_bs l1 ++ fl_bs l2) \/ In e (map (pre k) (flatten c)).
 Proof.
-  intros. rewrite flatten_node, !fl_bs_app, fl_bs_cons. simpl. rewrite !in_app_iff. tauto.
+  intros. rewrite flatten_node, !fl_bs_app, fl_bs_cons. rewrite !in_app_iff.
+  change (In e (fl_bs [])) with False. tauto.
 Qed.
 
 (* an entry of the rest has a key starting with a different segment *)
@@ -181,7 +189,7 @@ Lemma rest_not_parts : forall val (l : list (key * tree)) parts e,
   In e (valpart val ++ fl_bs l) -> fst e <> parts.
 Proof.
   intros val l parts e Hp Hok Hh Hin. apply in_app_iff in Hin as [Hin | Hin].
-  - destruct val; simpl in Hin; [|contradiction]. destruct Hin as [<- | []]. simpl. congruence.
+  - destruct val; simpl in Hin; [|contradiction]. destruct Hin as [<- | []]. simpl. intro E. apply Hp. symmetry. exact E.
   - apply in_fl_bs in Hin as (k & c & Hkc & Hin). destruct e as [q w].
     apply in_pre in Hin as (r & -> & _). simpl. intro E.
     rewrite Forall_forall in Hok. destruct (Hok _ Hkc) as (Hk & _). simpl in Hk.
@@ -191,7 +199,7 @@ Qed.
 Lemma firstn_skipn_eq : forall (k : key) i, skipn i k = [] -> firstn i k = k.
 Proof. intros k i E. rewrite <- (firstn_skipn i k) at 2. rewrite E, app_nil_r. reflexivity. Qed.
 
-Lemma flatten_with_value_leaf : forall l xs, flatten (with_value (Node (Some l) []) xs) = [([], l ++ xs)].
+Lemma flatten_with_value_leaf : forall (l xs : list V), flatten (with_value (Node (Some l) []) xs) = [([], l ++ xs)].
 Proof. reflexivity. Qed.
 
 (* ---- the insertion lemma -------------------------------------------------- *)
@@ -202,7 +210,7 @@ Theorem get_app_refines : forall fuel (t : tree) parts xs,
 Proof.
   induction fuel as [|fuel IH]; intros [val bs] parts xs Hp Hf Hinv Hpf; [lia|].
   pose proof (inv_keys_ok _ Hinv) as Hk.
-  simpl. rewrite (find_branch_spec bs parts None Hp (keys_nonempty _ _ Hk)). cbn [bind].
+  simpl (get_app _ _ _ _). rewrite (find_branch_spec bs parts None Hp (keys_nonempty _ _ Hk)). cbn [bind].
   pose proof Hinv as Hinv'. apply inv_node in Hinv' as (Hok & Hnd & Hval).
   (* a valued node is a leaf and [] would be a proper prefix of parts *)
   assert (Hvn : val = None).
@@ -216,7 +224,8 @@ Proof.
     pose proof (lcp_zero_not_key l1 parts k Hl1 ltac:(lia)) as Hfresh.
     subst bs.
     pose proof Hok as Hok'. apply Forall_app in Hok' as [Hok1 Hok2].
-    inversion Hok2 as [|? ? Hkv Hok2']; subst. destruct Hkv as (Hkne & Hiv & Hfv). simpl in *.
+    pose proof (Forall_inv Hok2) as Hkv. pose proof (Forall_inv_tail Hok2) as Hok2'.
+    destruct Hkv as (Hkne & Hiv & Hfv). simpl in Hkne, Hiv, Hfv.
     assert (Hokr : Forall child_ok (l1 ++ l2)) by (apply Forall_app; split; assumption).
     assert (Hcommon : firstn i k <> []) by (apply firstn_nonempty; assumption).
     assert (Hile : lcp k parts <= length parts) by apply lcp_le_r.
@@ -225,11 +234,15 @@ Proof.
     { rewrite Hi. rewrite lcp_firstn. symmetry. apply firstn_skipn. }
     assert (Hhk : hd 0%N k = hd 0%N parts).
     { assert (P : 0 < lcp k parts) by lia. apply lcp_pos_head in P as (x & a' & b' & -> & ->). reflexivity. }
+    assert (Hhc : hd 0%N (firstn i k) = hd 0%N parts).
+    { rewrite Hparts. destruct (firstn i k); [congruence | reflexivity]. }
     (* the other branches start with another segment *)
     rewrite heads_app in Hnd. simpl in Hnd.
     assert (Hhr : forall kc, In kc (l1 ++ l2) -> hd 0%N (fst kc) <> hd 0%N parts).
     { intros kc Hin E. apply NoDup_remove_2 in Hnd. apply Hnd. rewrite <- heads_app.
-      unfold heads. apply in_map_iff. exists kc. split; [congruence | exact Hin]. }
+      unfold heads. apply in_map_iff. exists kc. split; [|exact Hin].
+      cbv beta.
+      transitivity (hd 0%N parts); [exact E | symmetry; exact Hhk]. }
     assert (HR : forall e, In e (valpart None ++ fl_bs l1 ++ fl_bs l2) -> fst e <> parts).
     { intros e He. rewrite <- fl_bs_app in He. eapply rest_not_parts; eauto. }
     assert (Hndr : NoDup (heads (l1 ++ l2))).
@@ -260,8 +273,7 @@ Proof.
         destruct (IH t1 (skipn i parts) xs Hnew Hnewlen Hinv1 Hpf1) as (t1' & Ht1 & Hinv1' & Hupd1).
         rewrite Ht1. cbn [bind].
         assert (Hfc : forall kc, In kc (l1 ++ l2) -> fst kc <> firstn i k).
-        { intros kc Hin E. apply (Hhr _ Hin). rewrite E. rewrite Hparts at 2.
-          destruct (firstn i k); [congruence | reflexivity]. }
+        { intros kc Hin E. apply (Hhr _ Hin). rewrite E. exact Hhc. }
         rewrite (dset_fresh (l1 ++ l2) _ t1' Hfc). rewrite <- app_assoc.
         eexists. split; [reflexivity|]. split.
         -- apply inv_node. repeat split.
@@ -272,11 +284,11 @@ Proof.
               apply (Permutation_NoDup (l := hd 0%N (firstn i k) :: heads (l1 ++ l2))).
               ** apply Permutation_cons_append.
               ** constructor; [|exact Hndr]. intro Hin. unfold heads in Hin.
-                 apply in_map_iff in Hin as (kc & E & Hin). apply (Hhr _ Hin). rewrite E.
-                 rewrite Hparts at 2. destruct (firstn i k); [congruence | reflexivity].
+                 apply in_map_iff in Hin as (kc & E & Hin). apply (Hhr _ Hin).
+                 transitivity (hd 0%N (firstn i k)); [exact E | exact Hhc].
            ++ congruence.
-        -- rewrite Hparts at 2.
-           eapply (upd_spec_lift _ _ (valpart None ++ fl_bs l1 ++ fl_bs l2) (flatten t1) (flatten t1')).
+        -- eapply (upd_spec_lift _ _ (valpart None ++ fl_bs l1 ++ fl_bs l2) (flatten t1) (flatten t1')
+                                  _ _ _ _ Hparts).
            ++ intro e. rewrite in_flatten_split. rewrite Hfl1, map_map.
               assert (E : map (fun x => pre (firstn i k) (pre (skipn i k) x)) (flatten v)
                           = map (pre k) (flatten v)).
@@ -284,7 +296,7 @@ Proof.
               rewrite E. reflexivity.
            ++ intro e. apply in_flatten_moved.
            ++ exact Hupd1.
-           ++ rewrite <- Hparts. exact HR.
+           ++ exact HR.
       * (* parts is a proper prefix of the key: excluded by prefix-freeness *)
         exfalso. apply truthy_false in Enew.
         destruct (flatten v) as [|[r w] fl] eqn:Efl; [congruence|].
@@ -315,12 +327,12 @@ Proof.
               repeat split; simpl; try assumption. eapply upd_spec_nonempty; exact Hupd.
            ++ rewrite heads_app. simpl. exact Hnd.
            ++ congruence.
-        -- rewrite Hparts at 2.
-           eapply (upd_spec_lift _ _ (valpart None ++ fl_bs l1 ++ fl_bs l2) (flatten v) (flatten v')).
+        -- eapply (upd_spec_lift _ _ (valpart None ++ fl_bs l1 ++ fl_bs l2) (flatten v) (flatten v')
+                                  _ _ _ _ Hparts).
            ++ intro e. apply in_flatten_split.
            ++ intro e. apply in_flatten_split.
            ++ exact Hupd.
-           ++ rewrite <- Hparts. exact HR.
+           ++ exact HR.
       * (* exact hit: parts = k *)
         apply truthy_false in Enew.
         assert (Hpk : parts = k) by (rewrite Hparts, Enew, app_nil_r; reflexivity).
@@ -332,12 +344,12 @@ Proof.
            eexists. split; [reflexivity|]. split.
            ++ apply inv_node. repeat split.
               ** apply Forall_app. split; [exact Hok1|]. constructor; [|exact Hok2'].
-                 repeat split; simpl; try assumption; try congruence.
-                 apply inv_node. repeat split; [constructor | constructor | reflexivity].
+                 apply child_ok_leaf. exact Hkne.
               ** rewrite heads_app. simpl. exact Hnd.
               ** congruence.
-           ++ rewrite Hpk at 2. rewrite <- (app_nil_r k) at 3.
-              eapply (upd_spec_lift _ _ (valpart None ++ fl_bs l1 ++ fl_bs l2) [([], l)] [([], l ++ xs)]).
+           ++ assert (Hpk' : parts = k ++ []) by (rewrite app_nil_r; exact Hpk).
+              eapply (upd_spec_lift _ _ (valpart None ++ fl_bs l1 ++ fl_bs l2) [([], l)] [([], l ++ xs)]
+                                    _ _ _ _ Hpk').
               ** intro e. apply in_flatten_split.
               ** intro e. apply in_flatten_split.
               ** split.
@@ -347,7 +359,7 @@ Proof.
                      +++ intros [(old & [E | []] & ->) | (Hn & _)].
                          *** inversion E. auto.
                          *** exfalso. apply Hn. auto.
-              ** rewrite app_nil_r. rewrite <- Hpk. exact HR.
+              ** exact HR.
         -- (* an inner node: its paths extend parts, excluded *)
            exfalso. rewrite flatten_node in Hfv. simpl in Hfv.
            destruct (fl_bs bsv) as [|[r w] fl] eqn:Efl; [congruence|].
@@ -373,8 +385,7 @@ Proof.
     eexists. split; [reflexivity|]. split.
     + apply inv_node. repeat split.
       * apply Forall_app. split; [exact Hok|]. constructor; [|constructor].
-        repeat split; simpl; try assumption; try discriminate.
-        apply inv_node. repeat split; [constructor | constructor | reflexivity].
+        apply child_ok_leaf. exact Hp.
       * rewrite heads_app. simpl.
         apply (Permutation_NoDup (l := hd 0%N parts :: heads bs)).
         -- apply Permutation_cons_append.
@@ -397,6 +408,141 @@ Proof.
         -- intros [(old & Ho & _) | (_ & ->)].
            ++ exfalso. apply (HR _ Ho). reflexivity.
            ++ right. reflexivity.
+Qed.
+
+
+(* ---- the association is a function: paths in the flattening are distinct -- *)
+Lemma NoDup_app_intro : forall {A} (a b : list A),
+  NoDup a -> NoDup b -> (forall x, In x a -> ~ In x b) -> NoDup (a ++ b).
+Proof.
+  induction a as [|x a IH]; intros b Ha Hb Hd; simpl; [exact Hb|].
+  inversion Ha; subst. constructor.
+  - intro Hin. apply in_app_iff in Hin as [Hin | Hin]; [contradiction|].
+    apply (Hd x); [left; reflexivity | exact Hin].
+  - apply IH; auto. intros y Hy. apply Hd. right. exact Hy.
+Qed.
+
+Lemma NoDup_map_app : forall (k : key) (l : list key), NoDup l -> NoDup (map (app k) l).
+Proof.
+  intros k l H. induction H as [|x l Hx Hl IH]; simpl; constructor; [|exact IH].
+  intro Hin. apply in_map_iff in Hin as (y & E & Hy). apply app_inv_head in E. subst y. contradiction.
+Qed.
+
+Lemma map_fst_pre : forall k (l : list (key * list V)), map fst (map (pre k) l) = map (app k) (map fst l).
+Proof. intros. rewrite !map_map. reflexivity. Qed.
+
+Lemma inv_nodup : forall t, inv t -> NoDup (map fst (flatten t)).
+Proof.
+  fix IH 1. intros [val bs] H. apply inv_node in H as (Hok & Hnd & Hval).
+  rewrite flatten_node. destruct val as [l|].
+  - rewrite (Hval ltac:(discriminate)). simpl. constructor; [intros [] | constructor].
+  - simpl. clear Hval. induction bs as [|[k c] r IHr]; [constructor|].
+    pose proof (Forall_inv Hok) as (Hk & Hc & _). pose proof (Forall_inv_tail Hok) as Hok'.
+    simpl in Hk, Hc. simpl in Hnd. inversion Hnd as [|? ? Hnin Hnd']; subst.
+    rewrite fl_bs_cons, map_app, map_fst_pre. apply NoDup_app_intro.
+    + apply NoDup_map_app. apply IH. exact Hc.
+    + apply IHr; assumption.
+    + intros x Hx Hx'. apply in_map_iff in Hx as (r1 & <- & _).
+      apply in_map_iff in Hx' as ([q w] & Eq & Hin). simpl in Eq.
+      apply in_fl_bs in Hin as (k' & c' & Hkc & Hin). apply in_pre in Hin as (r2 & -> & _).
+      rewrite Forall_forall in Hok'. destruct (Hok' _ Hkc) as (Hk' & _). simpl in Hk'.
+      apply Hnin. unfold heads. apply in_map_iff. exists (k', c'). split; [|exact Hkc]. simpl.
+      destruct k as [|a k]; [congruence|]. destruct k' as [|a' k']; [congruence|].
+      simpl in Eq. inversion Eq. reflexivity.
+Qed.
+
+(* toJSON loses nothing when valued nodes are leaves *)
+Lemma toJSON_flatten : forall t, inv t -> flatten_json (toJSON t) = flatten t.
+Proof.
+  fix IH 1. intros [val bs] H. apply inv_node in H as (Hok & _ & Hval).
+  destruct val as [l|].
+  - rewrite (Hval ltac:(discriminate)). reflexivity.
+  - simpl. clear Hval. induction bs as [|[k c] r IHr]; [reflexivity|].
+    pose proof (Forall_inv Hok) as (_ & Hc & _). pose proof (Forall_inv_tail Hok) as Hok'.
+    simpl in Hc. rewrite (IH c Hc). f_equal. apply IHr. exact Hok'.
+Qed.
+
+(* ---- histories ------------------------------------------------------------ *)
+Definition hval (h : list (key * list V)) (q : key) : option (list V) :=
+  if existsb (fun e => key_eqb (fst e) q) h
+  then Some (concat (map snd (filter (fun e => key_eqb (fst e) q) h)))
+  else None.
+
+Definition prefix_free (ps : list key) : Prop :=
+  forall p q, In p ps -> In q ps -> ~ proper_prefix p q.
+
+Lemma hval_snoc : forall h p xs q,
+  hval (h ++ [(p, xs)]) q =
+  if key_eqb p q then Some (match hval h q with Some l => l | None => [] end ++ xs) else hval h q.
+Proof.
+  intros h p xs q. unfold hval. rewrite existsb_app, filter_app, map_app, concat_app. simpl.
+  destruct (key_eqb p q); simpl.
+  - rewrite orb_true_r, app_nil_r. destruct (existsb _ h) eqn:E; [reflexivity|].
+    f_equal. f_equal.
+    assert (F : filter (fun e : key * list V => key_eqb (fst e) q) h = []).
+    { induction h as [|e h IHh]; [reflexivity|]. simpl in *. apply orb_false_iff in E as [E1 E2].
+      rewrite E1. apply IHh. exact E2. }
+    rewrite F. reflexivity.
+  - rewrite orb_false_r, !app_nil_r. reflexivity.
+Qed.
+
+Lemma hval_in : forall h q v, hval h q = Some v -> In q (map fst h).
+Proof.
+  intros h q v H. unfold hval in H. destruct (existsb _ h) eqn:E; [|discriminate].
+  apply existsb_exists in E as (e & Hin & Ee). apply key_eqb_eq in Ee. subst q.
+  apply in_map. exact Hin.
+Qed.
+
+Definition represents (t : tree) (h : list (key * list V)) : Prop :=
+  forall q v, In (q, v) (flatten t) <-> hval h q = Some v.
+
+Lemma run_tree_refines : forall h (t0 : tree) h0,
+  inv t0 -> represents t0 h0 ->
+  Forall (fun e => fst e <> []) h -> prefix_free (map fst (h0 ++ h)) ->
+  exists t, run_tree t0 h = Ok t /\ inv t /\ represents t (h0 ++ h).
+Proof.
+  induction h as [|[p xs] h IH]; intros t0 h0 Hinv Hrep Hne Hpf.
+  - exists t0. rewrite app_nil_r. auto.
+  - pose proof (Forall_inv Hne) as Hp. pose proof (Forall_inv_tail Hne) as Hne'. simpl in Hp.
+    assert (Hpfree : pfree p (flatten t0)).
+    { intros q Hq. apply in_map_iff in Hq as ([q' v] & Eq & Hin). simpl in Eq. subst q'.
+      apply Hrep in Hin. apply hval_in in Hin.
+      assert (Hq : In q (map fst (h0 ++ (p, xs) :: h))) by (rewrite map_app; apply in_or_app; auto).
+      assert (Hp' : In p (map fst (h0 ++ (p, xs) :: h))).
+      { rewrite map_app. apply in_or_app. right. left. reflexivity. }
+      split; apply Hpf; assumption. }
+    destruct (get_app_refines (S (length p)) t0 p xs Hp ltac:(lia) Hinv Hpfree)
+      as (t1 & Ht1 & Hinv1 & [U1 U2]).
+    simpl. unfold tree_getitem. rewrite Ht1. cbn [bind].
+    replace (h0 ++ (p, xs) :: h) with ((h0 ++ [(p, xs)]) ++ h) in * by (rewrite <- app_assoc; reflexivity).
+    apply IH; auto.
+    intros q v. rewrite hval_snoc. destruct (key_eqb p q) eqn:E.
+    + apply key_eqb_eq in E. subst q. rewrite U2. split.
+      * intros [(old & Ho & ->) | (Hn & ->)].
+        -- apply Hrep in Ho. rewrite Ho. reflexivity.
+        -- destruct (hval h0 p) as [old|] eqn:Eh; [|reflexivity].
+           exfalso. apply Hn. apply in_map_iff. exists (p, old). split; [reflexivity|]. apply Hrep. exact Eh.
+      * intro H. destruct (hval h0 p) as [old|] eqn:Eh.
+        -- left. exists old. split; [apply Hrep; exact Eh | congruence].
+        -- right. split; [|simpl in H; congruence].
+           intro Hin. apply in_map_iff in Hin as ([q w] & Eq & Hin). simpl in Eq. subst q.
+           apply Hrep in Hin. congruence.
+    + apply key_eqb_neq in E. rewrite U1 by congruence. apply Hrep.
+Qed.
+
+Theorem tree_refines : forall h : list (key * list V),
+  Forall (fun e => fst e <> []) h -> prefix_free (map fst h) ->
+  exists t, run_tree empty_tree h = Ok t /\ inv t /\
+            (forall q v, In (q, v) (flatten t) <-> hval h q = Some v) /\
+            NoDup (map fst (flatten t)) /\
+            flatten_json (toJSON t) = flatten t.
+Proof.
+  intros h Hne Hpf.
+  destruct (run_tree_refines h empty_tree [] inv_empty) as (t & Ht & Hinv & Hrep); auto.
+  - intros q v. simpl. split; [intros [] | discriminate].
+  - exists t. repeat split; auto; try apply Hrep.
+    + apply inv_nodup. exact Hinv.
+    + apply toJSON_flatten. exact Hinv.
 Qed.
 
 End Refine.
